@@ -25,6 +25,7 @@ CANDIDATE_VIA = {
 # public methods that are mutators by contract but carry no guard; outside "read API" of the property
 OUT_OF_SCOPE = {
     'Memvid::begin_batch': 'batch-mode control of the ingestion API',
+    'Memvid::save_replay_sessions': 'feature replay: persistence API for recorded sessions (a mutator by contract, not a read API); it writes without upgrading the shared lock of a read-only handle (reproduced: triage c18replay) - recorded against C17 as a candidate, outside C18',
 }
 
 
